@@ -490,6 +490,13 @@ func (i *interpreter) freezeReachable(v value) {
 			if v == nil {
 				return
 			}
+			if i.frozenMaps == nil {
+				i.frozenMaps = map[*omap]struct{}{}
+			}
+			if _, ok := i.frozenMaps[v]; ok {
+				return
+			}
+			i.frozenMaps[v] = struct{}{}
 			for _, en := range v.entries {
 				walk(en.key)
 				walk(en.val)
